@@ -152,6 +152,7 @@ func Run(c *mc.Ctx, opt Options, body func()) *Result {
 	if global != nil {
 		panic("sched.Run: nested")
 	}
+	mc.KeepAlive()
 	if opt.Start.IsZero() {
 		opt.Start = time.Unix(1_700_000_000, 0)
 	}
